@@ -421,6 +421,11 @@ static void gen_piece(rng_t *r, int depth, int inside_args)
             ga("%%put(%c%s%c v%u%s)", q, gen_key(r), q, rng_below(r, 10), tail[rng_below(r, 4)]);
         }
         else if (rng_chance(r, 1, 12)) { static const int vl[] = { 127, 128, 254, 255, 256, 257, 1000, 2000 }; int n = vl[rng_below(r, 8)]; ga("%%put(%s ", gen_key(r)); for (int q = 0; q < n; q++) ga("%c", 'a' + q % 26); ga(")"); }      /* a value of a few hundred characters */
+        else if (rng_chance(r, 1, 25)) {
+            /* a value wrapped in a few hundred pairs of parentheses (followed by a read-back): deeper than an 8-bit nesting counter can count */
+            static const int pd[] = { 100, 254, 255, 256, 257, 300 }; int n = pd[rng_below(r, 6)]; const char *key = gen_key(r);
+            ga("%%put(%s ", key); for (int q = 0; q < n; q++) ga("("); ga("x"); for (int q = 0; q < n; q++) ga(")"); ga(") %%get(%s)", key);
+        }
         else ga("%%put(%s %s%u)", gen_key(r), rng_chance(r, 1, 4) ? "$V1" : "v", rng_below(r, 10));
     }
     else if (c < 80) {
